@@ -11,6 +11,7 @@ import (
 	"github.com/bronlabs/bron-crypto/pkg/base/serde"
 	"github.com/bronlabs/bron-crypto/pkg/mpc/dkg/trusteddealer"
 	"github.com/bronlabs/bron-crypto/pkg/mpc/sharing/vss/feldman"
+	"github.com/bronlabs/bron-crypto/pkg/mpc/zero/przs"
 	"github.com/bronlabs/bron-crypto/pkg/mpc/signatures/schnorr/lindell22/signing"
 	"github.com/bronlabs/bron-crypto/pkg/proofs/sigma/compiler/fiatshamir"
 
@@ -182,7 +183,21 @@ func Scenarios() []Scenario {
 						seeds[fmt.Sprint(uint64(peer))] = proto.Tok(buf)
 					}
 					tb, _ := c.Transcript().Clone().ExtractBytes("verif-probe", 32)
-					out[fmt.Sprint(uint64(id))] = map[string]any{"sid": proto.Tok(sid[:]), "tr": proto.Tok(tb), "seeds": seeds}
+					// what a protocol derives under a sub-quorum: pairwise seeds and a pseudorandom zero share of the sub-context
+					sub := map[string]any{}
+					if id != 3 {
+						if sc, err := c.SubContext(ad.IDSet(1, 2)); err == nil {
+							for peer, rd := range sc.Seeds() {
+								buf := make([]byte, 32)
+								io.ReadFull(rd, buf)
+								sub["seed"+fmt.Sprint(uint64(peer))] = proto.Tok(buf)
+							}
+							if zs, err := przs.SampleZeroShare(sc, toy.NewGroup()); err == nil {
+								sub["zero"] = proto.Tok(zs.Value().Bytes())
+							}
+						}
+					}
+					out[fmt.Sprint(uint64(id))] = map[string]any{"sid": proto.Tok(sid[:]), "tr": proto.Tok(tb), "seeds": seeds, "sub": sub}
 				}
 				return map[string]any{"kind": "session", "by": out}
 			}}
